@@ -50,11 +50,20 @@ def run_one(args):
         b = subprocess.run(["go", "build", "./..."], cwd=repo, env=ENV, capture_output=True, text=True)
         if b.returncode != 0:
             res["status"] = "NOBUILD"; return res
-        try:
-            t = subprocess.run(["go", "test", "-vet=off", "-count=1", "-timeout", "60s", "./..."], cwd=repo, env=ENV, capture_output=True, text=True, timeout=200)
-            if t.returncode != 0:
-                res["status"] = "KILLED-BY-TESTS"; return res
-        except subprocess.TimeoutExpired:
+        # two tests of the suite are timing-dependent (TestJoe_Shutdown, TestConnection_Unsubscriptions) and fail now and
+        # then under load whatever the code: a run that fails only in those is repeated (up to twice)
+        killed = False
+        for attempt in range(3):
+            try:
+                t = subprocess.run(["go", "test", "-vet=off", "-count=1", "-timeout", "60s", "./..."], cwd=repo, env=ENV, capture_output=True, text=True, timeout=200)
+            except subprocess.TimeoutExpired:
+                killed = True; break
+            if t.returncode == 0:
+                break
+            failing = set(re.findall(r"^--- FAIL: (\w+)", t.stdout, re.M))
+            if not failing or not failing <= {"TestJoe_Shutdown", "TestConnection_Unsubscriptions"} or attempt == 2:
+                killed = True; res["failing_tests"] = sorted(failing)[:5]; break
+        if killed:
             res["status"] = "KILLED-BY-TESTS"; return res
         ps = props_for(props, m["file"], m["func"])
         res["props"] = ps
@@ -81,9 +90,16 @@ def main():
         elif a[0] == "--gen2": gen2 = True; a = a[1:]
         elif a[0] == "--gen3": gen3 = True; a = a[1:]
         else: a = a[1:]
+    recheck = None
+    if "--recheck-killed" in sys.argv:
+        recheck = sys.argv[sys.argv.index("--recheck-killed") + 1]
     out = subprocess.run([os.path.join(VERIF, "bin/mutgen"), REPO] + (["-gen2"] if gen2 else []) + (["-gen3"] if gen3 else []), capture_output=True, text=True).stdout
     muts = [json.loads(l) for l in out.splitlines() if l.strip()]
     if only: muts = [m for m in muts if only in m["file"] or only in m["func"]]
+    if recheck:
+        # only the mutants an earlier run set aside as rejected by the tests (a flaky test may have done that wrongly)
+        prev = [json.loads(l) for l in open(recheck) if l.strip()]
+        muts = [{k: r[k] for k in ("file", "func", "line", "pos", "end", "old", "new", "op")} for r in prev if r.get("status") == "KILLED-BY-TESTS"]
     props = load_map()
     with cf.ThreadPoolExecutor(max_workers=workers) as ex:
         for r in ex.map(run_one, [(m, props) for m in muts]):
